@@ -291,7 +291,10 @@ func runC10Loop(t *testing.T, three bool, budgets []int) CaseOut {
 		synctest.Wait()
 		m.settle()
 		// a regular update (the first message only served as the handshake)
-		ev.inject(mkRoute(wireRoute{NodeID: "evil", UpdateID: "e2", UpdateEpoch: 10, UpdateSequence: 2, Connections: map[string]float64{last: 1, "ghost": 1}, ForwardingNode: "evil"}))
+		ev.inject(mkRoute(wireRoute{NodeID: "evil", UpdateID: "e2", UpdateEpoch: 10, UpdateSequence: 2, Connections: map[string]float64{last: 1, "ghost": 1, "ghost2": 1}, ForwardingNode: "evil"}))
+		synctest.Wait()
+		m.settle()
+		ev.inject(mkRoute(wireRoute{NodeID: "ghost2", UpdateID: "h1", UpdateEpoch: 10, UpdateSequence: 1, Connections: map[string]float64{"evil": 1}, ForwardingNode: "evil"}))
 		synctest.Wait()
 		m.settle()
 		ev.inject(mkRoute(wireRoute{NodeID: "ghost", UpdateID: "g1", UpdateEpoch: 10, UpdateSequence: 1, Connections: map[string]float64{"evil": 1}, ForwardingNode: "evil"}))
@@ -382,6 +385,92 @@ func runC10Loop(t *testing.T, three bool, budgets []int) CaseOut {
 			pc.Close()
 			synctest.Wait()
 		}
+		// Datagrams whose claimed origin is itself behind the loop: the expiry report travels the loop too and
+		// has its own budget; reports about reports are never made, so everything comes to rest.
+		if m.nodes["a"].Status().RoutingTable["ghost2"] == "" {
+			out.violate("harness:c10-loop-setup", "a has no route to the second phantom node: %v", m.nodes["a"].Status().RoutingTable)
+		}
+		entry := ev
+		if three {
+			entry = ev2
+		}
+		for _, h := range budgets {
+			if h > 40 && h != 255 && h%64 != 0 {
+				continue
+			}
+			for _, kind := range []string{"data", "unreach"} {
+				m.recvd = map[string][][]byte{}
+				var pkt []byte
+				if kind == "data" {
+					pkt = mkData(byte(h), "ghost2", "ghost", "snd", "rcv", []byte("LOOP2"))
+				} else {
+					pkt = mkData(byte(h), "ghost2", "ghost", "unreach", "unreach", []byte(`{"FromNode":"ghost","ToNode":"ghost2","FromService":"x","ToService":"y","Problem":"test"}`))
+				}
+				entry.inject(pkt)
+				synctest.Wait()
+				fw := map[string]int{}
+				capped := true
+				for i := 0; i < 3000; i++ {
+					moved := false
+					for _, k := range m.sortedLinks() {
+						sk := m.sess[k]
+						if sk.pending() == 0 {
+							continue
+						}
+						sk.mu.Lock()
+						d := sk.outbox[0].data
+						sk.mu.Unlock()
+						if hd, ok := parseData(d); ok {
+							fw[hd.ToSvc]++
+						}
+						m.deliverAt(k, 0)
+						moved = true
+						break
+					}
+					for _, d := range m.recvd["evil"] {
+						if _, ok := parseData(d); ok {
+							entry.inject(d)
+							synctest.Wait()
+							moved = true
+						}
+					}
+					m.recvd["evil"] = nil
+					if !moved {
+						capped = false
+						break
+					}
+				}
+				ctx := fmt.Sprintf("loop(three=%v) phantom origin, %s packet, budget %d", three, kind, h)
+				out.count("loop_sends", 1)
+				total := 0
+				for _, n := range fw {
+					total += n
+				}
+				if capped {
+					out.violate("hop:loop-never-ends", "%s: still being forwarded after 3000 steps (forwards by service: %v)", ctx, fw)
+				} else {
+					if kind == "data" && fw["rcv"] > h {
+						out.violate("hop:loop-forwarded-more-than-budget", "%s: forwarded %d times", ctx, fw["rcv"])
+					}
+					limit := 30 // the report's own budget
+					if kind == "unreach" {
+						limit = h
+					}
+					if fw["unreach"] > limit {
+						out.violate("hop:loop-report-forwarded-more-than-budget", "%s: the unreachable report was forwarded %d times, its budget is %d", ctx, fw["unreach"], limit)
+					}
+				}
+				// drain whatever is left so that the next experiment starts clean
+				for i := 0; i < 50 && m.inflight() > 0; i++ {
+					for _, k := range m.sortedLinks() {
+						if m.sess[k].pending() > 0 {
+							m.sess[k].take(0)
+						}
+					}
+				}
+				m.recvd["evil"] = nil
+			}
+		}
 		m.end()
 	})
 	out.Outcome = fmt.Sprintf("loop three=%v", three)
@@ -432,7 +521,7 @@ func init() {
 		ID:        "C10",
 		Level:     "model_checking",
 		Technique: "exhaustive enumeration of (topology, source, destination, hop budget) on converged real nodes in a synctest bubble with harness-owned links that see every datagram, plus forwarding loops built by a scripted peer; oracle from the statement",
-		Rule: "6 converged topologies (chains of 2-4, triangle and square with unequal costs, star) x every ordered pair x every budget 0..d+2 and 255 (thorough: 0..255 on the 4-chain): marked datagram, Ping and Traceroute; 2- and 3-node forwarding loops through a phantom route with budgets 0..255 (quick: every 8th plus 0..5 and 255). " +
+		Rule: "6 converged topologies (chains of 2-4, triangle and square with unequal costs, star) x every ordered pair x every budget 0..d+2 and 255 (thorough: 0..255 on the 4-chain): marked datagram, Ping and Traceroute; 2- and 3-node forwarding loops through a phantom route with budgets 0..255 (quick: every 8th plus 0..5 and 255), with the datagram sent by a real node and, for budgets <=40, 64k and 255, with a datagram and with an unreachable report whose claimed origin is a second phantom node behind the loop (so that the expiry report circulates too). " +
 			"A case is one topology (or one slice of loop budgets); counters.sends / loop_sends / traceroutes count the individual experiments, all of them distinct and non-trivial.",
 		Assumptions: []string{"links deliver in FIFO order (the property does not depend on ordering)", "a bouncing peer returns packets unchanged; a peer that re-writes the hop count creates new packets and is outside the statement"},
 		Run:         runC10,
